@@ -299,6 +299,16 @@ def rule_P4(ctx):
                     # reassigned to something unknown
                     if isinstance(a.value, (ast.GeneratorExp, ast.ListComp)) or (isinstance(a.value, ast.Call) and norm(a.value.func) == "list"):
                         env[a.targets[0].id] = None
+        from .sem import list_builder as _lb
+        for nm in {a.targets[0].id for a in own_nodes(fn) if isinstance(a, ast.Assign) and len(a.targets) == 1 and isinstance(a.targets[0], ast.Name)} | \
+                  {a.target.id for a in own_nodes(fn) if isinstance(a, ast.AnnAssign) and isinstance(a.target, ast.Name)}:
+            if env.get(nm) is None:
+                lb = _lb(fn, nm)
+                if lb is not None and env.get(lb[0]) == "STREAM" and lb[1]:
+                    if all(c is None for c, e in lb[1]) and len(lb[1]) == 1:
+                        env[nm] = "STREAM"
+                    elif all(c is not None and "_c0" in c and "num_interleaved_channels" in c for c, e in lb[1]):
+                        env[nm] = "CHANNEL"
         fn._p4env = env
         for c in own_nodes(fn):
             if isinstance(c, ast.Call) and isinstance(c.func, ast.Name) and c.func.id == "zip":
@@ -331,14 +341,62 @@ def rule_P4(ctx):
     if not ok_any:
         ctx.ob("P4", mt, "mixed-endian inputs are handled by swap_endianess_multi", False, "call not found", inst="swap-flags-domain")
     # the flag itself: stream endianness vs system byte order ; output swap vs destination
-    sw = [a for a in own_nodes(mt) if isinstance(a, ast.Assign) and norm(a.targets[0]) == "swaps"]
-    ok = len(sw) == 1 and "x.encoding.endianess != system_byte_order" in full(sw[0].value)
-    ctx.ob("P4", sw[0] if sw else mt, "an input channel is swapped iff its stream's byte order differs from the host's", ok, "", inst="swap-predicate")
+    from .sem import list_builder, sum_builder
+    flag_names = {norm(c.args[1]) for c in calls if len(c.args) > 1 and isinstance(c.args[1], ast.Name)}
+    ds = mt.args.args[0].arg
+    ok, det = len(flag_names) == 1, f"flag lists {sorted(flag_names)}"
+    if ok:
+        lb = list_builder(mt, sorted(flag_names)[0])
+        want = (ds, [("max(1, _c0.encoding.num_interleaved_channels)", "_c0.encoding.endianess != system_byte_order")])
+        alt = (ds, [("max(1, _c0.encoding.num_interleaved_channels)", "system_byte_order != _c0.encoding.endianess")])
+        ok = lb in (want, alt)
+        det = "" if ok else f"flags are built as {lb}"
+    ctx.ob("P4", mt, "an input channel is swapped iff its stream's byte order differs from the host's (one flag per interleaved channel of each stream)", ok, det, inst="swap-predicate")
     ifs = [i for i in own_nodes(mt) if isinstance(i, ast.If) and norm(i.test) == "dest_encoding.endianess != system_byte_order"]
     ok = len(ifs) == 1 and "swap_endianess" in full(ifs[0].body[0])
     ctx.ob("P4", mt, "the output is swapped iff the destination byte order differs from the host's", ok, "", inst="output-swap")
-    anyall = [i for i in own_nodes(mt) if isinstance(i, ast.If) and norm(i.test) in ("any(swaps)", "all(swaps)")]
-    ctx.ob("P4", mt, "uniform and mixed input byte orders are both dispatched (any / all)", len(anyall) == 2, "", inst="any-all")
+    # dispatch decided per path: no flag set -> no input swap; all set -> swap_endianess; mixed -> swap_endianess_multi
+    from .util import truth_of
+    fl = sorted(flag_names)[0] if len(flag_names) == 1 else "swaps"
+    seen_d = set()
+    okd, detd = True, ""
+    for p in run_paths(ctx, mt, rule="P4", limit=6000):
+        if p.end != "return":
+            continue
+        added = []
+        for c, e, st in calls_on(p):
+            if isinstance(c.func, ast.Attribute) and c.func.attr == "append" and c.args and isinstance(c.args[0], ast.Tuple) and len(c.args[0].elts) == 2:
+                nm = c.args[0].elts[0]
+                if isinstance(nm, ast.Constant) and isinstance(nm.value, str) and "input" in nm.value:
+                    v = c.args[0].elts[1]
+                    added.append("multi" if (isinstance(v, ast.Lambda) and "swap_endianess_multi" in norm(v.body)) else norm(v))
+        def agg_truth(which):
+            for c_, t_, n_ in p.conds:
+                tst = getattr(n_, "test", None)
+                neg = False
+                while isinstance(tst, ast.UnaryOp) and isinstance(tst.op, ast.Not):
+                    tst, neg = tst.operand, not neg
+                if isinstance(tst, ast.Call) and isinstance(tst.func, ast.Name) and tst.func.id == which and len(tst.args) == 1 \
+                        and isinstance(tst.args[0], ast.Name) and tst.args[0].id == fl:
+                    return (t_ != neg), fl
+            return None
+
+        ta, tl = agg_truth("any"), agg_truth("all")
+        if ta is None or ta[1] != fl:
+            continue  # pass-through path: decided before the flags exist
+        if not ta[0]:
+            case, want_added = "none", []
+        elif tl is not None and tl[1] == fl and tl[0]:
+            case, want_added = "all", ["swap_endianess"]
+        elif tl is not None and tl[1] == fl:
+            case, want_added = "mixed", ["multi"]
+        else:
+            case, want_added = "?", None
+        seen_d.add(case)
+        if want_added is None or added != want_added:
+            okd, detd = False, f"case `{case}`: input swap steps {added}"
+    okd = okd and seen_d == {"none", "all", "mixed"}
+    ctx.ob("P4", mt, "uniform and mixed input byte orders are both dispatched (any / all)", okd, detd or f"cases seen {sorted(seen_d)}", inst="any-all")
     sbo = ctx.prog.assigned("smpl_extract/data_streams.py", "system_byte_order", "P4")
     ok = norm(sbo) == "Endianess.BIG if sys.byteorder == 'big' else Endianess.LITTLE"
     ctx.ob("P4", sbo, "system_byte_order reflects sys.byteorder", ok, norm(sbo), inst="system_byte_order", file="smpl_extract/data_streams.py", qualname="<module>")
@@ -449,15 +507,23 @@ def rule_P5(ctx):
     ok = len(cond) == 1 and norm(cond[0].test) == "len(data_streams) == 1 and data_streams[0].encoding == dest_encoding"
     ctx.ob("P5", mt, "pass-through is used only for a single stream already in the destination encoding", ok, "", inst="passthrough-cond")
     # channel count check
-    ok = any(isinstance(i, ast.If) and norm(i.test) == "total_num_channels != expected_num_channels" and "IncompatibleNumberOfChannels" in raises_in(i.body) for i in own_nodes(mt))
-    t = full(mt)
-    ok = ok and "total_num_channels += num_channels" in t and "num_channels = max(1, data_stream.encoding.num_interleaved_channels)" in t \
-        and "expected_num_channels = dest_encoding.num_interleaved_channels" in t
-    ctx.ob("P5", mt, "a source/destination channel-count mismatch is rejected", ok, "", inst="channel-count")
+    from .sem import sum_builder, canon_expr as _ce
+    okc, detc = False, "no channel-count test raising IncompatibleNumberOfChannels"
+    for i in own_nodes(mt):
+        if isinstance(i, ast.If) and "IncompatibleNumberOfChannels" in raises_in(i.body) and isinstance(i.test, ast.Compare) and len(i.test.ops) == 1 \
+                and isinstance(i.test.ops[0], ast.NotEq):
+            sides = [i.test.left, i.test.comparators[0]]
+            totals = [sd for sd in sides if isinstance(sd, ast.Name) and sum_builder(mt, sd.id) is not None]
+            exps = [sd for sd in sides if sd not in totals]
+            if len(totals) == 1 and len(exps) == 1:
+                sb = sum_builder(mt, totals[0].id)
+                okc = sb == (mt.args.args[0].arg, "max(1, _c0.encoding.num_interleaved_channels)") and _ce(mt, exps[0]) == f"{mt.args.args[1].arg}.num_interleaved_channels"
+                detc = "" if okc else f"counts {sb} against `{_ce(mt, exps[0])}`"
+    ctx.ob("P5", mt, "a source/destination channel-count mismatch is rejected", okc, detc, inst="channel-count")
     ok = any(isinstance(i, ast.If) and norm(i.test) == "len(data_streams) <= 0" and "NoDataStream" in raises_in(i.body) for i in own_nodes(mt))
     ctx.ob("P5", mt, "no data stream is rejected", ok, "", inst="no-stream")
     # stop conditions
-    from .sem import emptiness_by, canon_expr, grow_multiset
+    from .sem import emptiness_by, canon_expr, grow_multiset, grow_events
     pn = ctx.fn(TR, "PipelineTranscoder.__next__", "P5")
     stops = [i for i in own_nodes(pn) if isinstance(i, ast.If) and "StopIteration" in raises_in(i.body)]
     ok = len(stops) == 1
@@ -466,6 +532,14 @@ def rule_P5(ctx):
         m = _re.fullmatch(r"any\(\[(.+) for _c0 in channels\]\)|any\(\((.+) for _c0 in channels\)\)", t)
         inner = (m.group(1) or m.group(2)) if m else None
         ok = inner is not None and emptiness_by(ast.parse(inner, mode="eval").body, lambda e: isinstance(e, ast.Name) and e.id == "_c0") is True
+    if not ok:
+        # loop form: for ch in channels: if <ch is empty>: raise StopIteration   (nothing else in the loop)
+        for f in own_nodes(pn):
+            if isinstance(f, ast.For) and isinstance(f.target, ast.Name) and canon_expr(pn, f.iter) == "channels" and len(f.body) == 1 and not f.orelse \
+                    and isinstance(f.body[0], ast.If) and not f.body[0].orelse and "StopIteration" in raises_in(f.body[0].body) \
+                    and emptiness_by(f.body[0].test, lambda e, v=f.target.id: isinstance(e, ast.Name) and e.id == v) is True \
+                    and len([i for i in own_nodes(pn) if isinstance(i, ast.If) and "StopIteration" in raises_in(i.body)]) == 1:
+                ok = True
     ctx.ob("P5", pn, "the pipeline stops when any channel has no more frames (output ends with the shortest source), and only then", ok, "", inst="pipeline-stop")
     pa = ctx.fn(TR, "PassthroughTranscoder.__next__", "P5")
     n_stop = 0
@@ -493,26 +567,48 @@ def rule_P5(ctx):
     ok = info["eod"] >= 1 and info["data"] >= 1 and not info["bad"]
     ctx.ob("P5", info["test"] or df, "a stream counts as exhausted only when its (trimmed) block is empty", ok,
            "" if ok else f"end-of-data test is `{norm(info['test'].test) if info['test'] is not None else '?'}` ({'; '.join(info['bad'][:2])}): a final block holding data is discarded", inst="decode-eod")
-    if info["test"] is not None:
-        t = info["test"]
-        branch = t.body if info["empty_is_true"] else t.orelse
-        ev = evaluator(ctx, df, info["env"])
-        gm = grow_multiset(branch, info["channels"])
-        ok = gm is not None and len(gm) == 1 and gm[0][0] is not None
-        if ok:
-            cnt, el = ev.ev(gm[0][0]).key(), ev.ev(gm[0][1]).key()
-            S = info["stream"]
-            ok = cnt == f"max(1,{S}.encoding.num_interleaved_channels)" and el in (f"np.zeros(0,dtype={S}.encoding.dtype)", f"np.zeros(tuple(0),dtype={S}.encoding.dtype)",
-                                                                                  f"np.array([],dtype={S}.encoding.dtype)", f"np.empty(0,dtype={S}.encoding.dtype)")
-        ctx.ob("P5", t, "an exhausted stream contributes one empty channel per interleaved channel (keeps channel positions)", ok,
-               "" if ok else f"on exhaustion `{info['channels']}` grows by {[(norm(c) if c is not None else '1', norm(e)[:50]) for c, e, n in (gm or [])] if gm is not None else 'an unrecognised form'}", inst="decode-eod-empties")
+    # what an exhausted stream contributes, per end-of-data path, on terms: growth events of the channel list are
+    # extend/+= of rep(N, E) (= [E]*N, [E for _ in range(N)]) or an append(E) inside `for _ in range(N)`
+    S = info["stream"]
+    NCk = f"max(1,{S}.encoding.num_interleaved_channels)"
+    zeros = (f"np.zeros(0,dtype={S}.encoding.dtype)", f"np.zeros(tuple(0),dtype={S}.encoding.dtype)", f"np.array([],dtype={S}.encoding.dtype)",
+             f"np.empty(0,dtype={S}.encoding.dtype)")
+    oke, dete, n_e = True, "", 0
+    for p in info["eod_paths"]:
+        evs = []
+        for s_ in p.steps:
+            if s_.kind != "stmt":
+                continue
+            for n, k, v in grow_events(s_.ast, info["channels"]):
+                ev_ = evaluator(ctx, df, s_.env)
+                key = ev_.ev(v).key()
+                if k == "append":
+                    par = getattr(s_.ast, "_parent", None)
+                    if isinstance(par, ast.For) and isinstance(par.iter, ast.Call) and norm(par.iter.func) == "range" and len(par.iter.args) == 1:
+                        evs.append((ev_.ev(par.iter.args[0]).key(), key))
+                    else:
+                        evs.append(("1", key))
+                else:
+                    m = _re.fullmatch(r"rep\((.+),(np\.\w+\(.*\))\)", key)
+                    evs.append((m.group(1), m.group(2)) if m else ("?", key))
+        # a path that skips the inner `for _ in range(N)` body is the N = 0 case of the same loop
+        looped = [e for e in evs]
+        if not looped:
+            skipped = any(s_.kind == "for" and isinstance(s_.ast, ast.For) and s_.label in ("false", "exit", "else") for s_ in p.steps)
+            if skipped:
+                continue
+        n_e += 1
+        if len(evs) != 1 or evs[0][0] != NCk or evs[0][1] not in zeros:
+            oke, dete = False, f"on exhaustion `{info['channels']}` grows by {evs}"
+    oke = oke and n_e >= 1
+    ctx.ob("P5", info["test"] or df, "an exhausted stream contributes one empty channel per interleaved channel (keeps channel positions)", oke, dete, inst="decode-eod-empties")
 
 
 def _decode_paths(ctx, df, TRIMMED):
     """classify the paths of decode_frame: a path that interprets a block (np.frombuffer) is a data path, one that reads a
     block without interpreting it is an end-of-data path; the emptiness tests on the trimmed block must agree"""
     from .sem import emptiness_by
-    info = {"eod": 0, "data": 0, "bad": [], "test": None, "empty_is_true": True, "env": {}, "stream": "?", "channels": "channels", "data_paths": []}
+    info = {"eod": 0, "data": 0, "bad": [], "test": None, "empty_is_true": True, "env": {}, "stream": "?", "channels": "channels", "data_paths": [], "eod_paths": []}
     rets = [r for r in own_nodes(df) if isinstance(r, ast.Return) and isinstance(r.value, ast.Name)]
     if rets:
         info["channels"] = rets[0].value.id
@@ -542,6 +638,7 @@ def _decode_paths(ctx, df, TRIMMED):
                 info["bad"].append(f"a block is interpreted on a path (lines {p.lines()[-6:]}) that did not establish it is non-empty")
         else:
             info["eod"] += 1
+            info.setdefault("eod_paths", []).append(p)
             if not any(sides):
                 info["bad"].append(f"a block is dropped on a path (lines {p.lines()[-6:]}) that did not establish it is empty")
     return info
